@@ -709,7 +709,10 @@ func objKey(o types.Object) string {
 func (u *Unit) allocValue(st *State, v Val, ptrType types.Type) Val {
 	p := u.newRef(st, "obj")
 	pv := Val{T: p, Ty: ptrType, So: "Int"}
+	// initialising a fresh object is not a write to pre-existing data (see roKey)
+	save := u.astWrite
 	u.storeDeref(st, pv, v)
+	u.astWrite = save
 	return pv
 }
 
